@@ -35,7 +35,8 @@ CanStep(t) == TaskCanStepW(t, FALSE)
 SibFailed(a) == \E p \in Actor : \E i, j \in 1..Len(act[p].kids) :
                    act[p].kids[i].a = a /\ act[p].kids[j].a # a /\ act[act[p].kids[j].a].pc = "failed"
 IdleReason(prefix, a) ==
-  IF act[a].mq # <<>> THEN prefix \o "deq." \o Head(act[a].mq).src \o (IF Head(act[a].mq).src = "parent" /\ SibFailed(a) THEN ".sibfail" ELSE "")
+  IF act[a].mq # <<>> THEN prefix \o "deq." \o Head(act[a].mq).src \o (IF Head(act[a].mq).src = "parent" /\ SibFailed(a) THEN ".sibfail"
+                                                                       ELSE IF Head(act[a].mq).src = "ctx" THEN "." \o Head(act[a].mq).k ELSE "")
   ELSE IF act[a].stream /\ (act[a].sq.ready > 0 \/ act[a].sq.ended) /\ ChanOpen(a) THEN prefix \o "stream"
   ELSE IF act[a].stream THEN prefix \o "closed.stream"
   ELSE IF \E b \in Actor : a \in act[b].subs THEN prefix \o "closed.subscribed"       \* a broker subscription is all that is left
@@ -196,7 +197,11 @@ T_HBegin == /\ IsEvent("h_begin")
             /\ LET a == E.task IN
                /\ G("hb.cur", cur = a /\ ~yl)
                \* (a handler running on an actor that has FAILED: named after the failure, e.g. a timeout that should have been fatal)
-               /\ G(IF act[a].pc = "failed" THEN "hb.phase.failed." \o act[a].why ELSE "hb.phase." \o E.src,
+               \* (... or while the specification's loop is about to process a restart / stop request it took out of the mailbox)
+               /\ G(IF act[a].pc = "failed" THEN "hb.phase.failed." \o act[a].why
+                    ELSE IF act[a].pc = "dequeued" /\ act[a].curp.k \in {"restart", "stop"} THEN "hb.phase." \o act[a].curp.k \o "." \o act[a].curp.src
+                    ELSE IF act[a].pc = "idle" /\ act[a].mq # <<>> /\ Head(act[a].mq).k \in {"restart", "stop"} THEN "hb.phase." \o Head(act[a].mq).k \o "." \o Head(act[a].mq).src
+                    ELSE "hb.phase." \o E.src,
                     act[a].pc = "dequeued" /\ act[a].curp.k = "task" /\ act[a].curp.rs # "ping")
                /\ G("hb.fifo." \o E.src, act[a].curp.m = E.m /\ act[a].curp.src = E.src)
                /\ G("hb.inst", act[a].inst = E.inst /\ act[a].inc = E.inc)
